@@ -2,7 +2,7 @@
 from .. import core, extract
 from ..core import Suite
 
-LEAN_TARGETS = ['Uds.Props.C11', 'Uds.Tie.Groups']
+LEAN_TARGETS = ['Uds.Props.C11', 'Uds.Props.C11Call', 'Uds.Tie.Groups']
 ASSUMPTIONS = [
     'domain = the client methods whose docstring lists tolerate_zero_padding under ":Effective configuration:" (extracted on every run) plus read_memory_by_address',
     'data identifier 0x0000 is not configured (otherwise two zero bytes are a genuine identifier and the padding is ambiguous)',
